@@ -233,4 +233,8 @@ class SimpleQueue(mp_SimpleQueue):
             self._writer.send_bytes(obj)
         else:
             with self._wlock:
+                if os.environ.get("JOBLIB_VERIF_HOOKS"):
+                    from ...._verif_hooks import point
+
+                    point("queue.in_send", writer=self._writer, data=obj)
                 self._writer.send_bytes(obj)
